@@ -35,6 +35,59 @@ DEFS = ["(Definition/Aa, (Red))", "(Definition/Bb, (Blue))", "(Definition/Cc/#, 
 NAMES_FULL = ["Aa", "aa", "Bb", "Cc/1", "Cc/2"]
 NAMES_SMALL = ["Aa", "aa"]
 
+# definition names with non-ASCII letters whose case variants are not related by str.lower() alone (sharp s, final
+# sigma, dotted capital I) and one whose variants are (e acute).  The spellings of one family are derived, not listed:
+# the name as declared, its upper(), casefold() and lower() forms - all of them are the same name case-insensitively
+# (Unicode caseless matching = equal casefold()).  Which families are usable is asked of the schema at run time
+# (usable_unicode_bases): every spelling must be a legal definition name under 8.3.0.
+UNI_BASES = ["Straße", "Größe", "ΟΔΟΣ", "İstanbul", "Café"]
+UNI_DEFSETS = ("uniA", "uniB")
+
+
+def uni_variants(base, limit=None):
+    out = []
+    for v in (base, base.upper(), base.casefold(), base.lower()):
+        if v not in out:
+            out.append(v)
+    assert len({v.casefold() for v in out}) == 1, out
+    return out[:limit] if limit else out
+
+
+def uni_valued(index, defset):
+    """family number `index` takes a value in one of the two definition sets and none in the other"""
+    return (index % 2 == 1) == (defset == "uniA")
+
+
+def defset_texts(defset):
+    if defset == "ascii":
+        return DEFS
+    return [f"(Definition/{b}/#, (Label/#))" if uni_valued(i, defset) else f"(Definition/{b}, (Red))"
+            for i, b in enumerate(UNI_BASES)]
+
+
+def defset_of(part):
+    return part.split(":", 1)[1] if ":" in part else "ascii"
+
+
+def usable_unicode_bases():
+    """-> (usable, skipped): a family is usable when every derived spelling passes the schema's own name rules as a
+    definition name (character classes of the value class of Definition/#); nothing about matching is asked here"""
+    if "uni_ok" not in _state:
+        from hed.models import HedString
+        from hed.validator import HedValidator
+        from hed.errors.error_types import ErrorSeverity
+        v = HedValidator(schema(), definitions_allowed=True)
+        ok, bad = [], []
+        for b in UNI_BASES:
+            errs = []
+            for sp in uni_variants(b):
+                for text in (f"(Definition/{sp}, (Red))", f"(Definition/{sp}/#, (Label/#))"):
+                    errs += [i for i in v.validate(HedString(text, schema()), allow_placeholders=True)
+                             if i.get("severity", 1) == ErrorSeverity.ERROR]
+            (bad if errs else ok).append(b)
+        _state["uni_ok"] = (ok, bad)
+    return _state["uni_ok"]
+
 
 # ----------------------------------------------------------------------------------------------------------------
 # oracle (from the property text)
@@ -291,20 +344,21 @@ def read_issues(issues):
 _state = {}
 
 
-def _defs():
+def _defs(defset="ascii"):
     from hed.models import DefinitionDict
-    if "dd" not in _state:
-        _state["dd"] = DefinitionDict(DEFS, schema())
-        _state["sidecar_text"] = json.dumps({"defs": {"HED": {f"d{i}": d for i, d in enumerate(DEFS)}}})
-    return _state["dd"]
+    if ("dd", defset) not in _state:
+        texts = defset_texts(defset)
+        _state["dd", defset] = DefinitionDict(texts, schema())
+        _state["sidecar_text", defset] = json.dumps({"defs": {"HED": {f"d{i}": d for i, d in enumerate(texts)}}})
+    return _state["dd", defset]
 
 
-def validate_rows(rows, extras=None, use_sidecar=False, style=0):
+def validate_rows(rows, extras=None, use_sidecar=False, style=0, defset="ascii"):
     from hed.models import TabularInput, Sidecar
-    dd = _defs()
+    dd = _defs(defset)
     df = rows_to_frame(rows, extras, style)
     if use_sidecar:
-        sc = Sidecar(io.StringIO(_state["sidecar_text"]))
+        sc = Sidecar(io.StringIO(_state["sidecar_text", defset]))
         return TabularInput(df, sidecar=sc, name="c10").validate(schema())
     return TabularInput(df, name="c10").validate(schema(), extra_def_dicts=dd)
 
@@ -330,11 +384,11 @@ def match_rows(expected, observed, rows_of):
     return rec(0)
 
 
-def check_case(rows, extras=None, use_sidecar=False, style=0):
+def check_case(rows, extras=None, use_sidecar=False, style=0, defset="ascii"):
     """returns (list of (clause, observed, expected), delay-tie ambiguity flag)"""
     fails = []
     try:
-        issues = validate_rows(rows, extras, use_sidecar, style)
+        issues = validate_rows(rows, extras, use_sidecar, style, defset)
     except Exception as e:  # noqa
         return [("C10.validate.total", f"{type(e).__name__}: {str(e)[:200]}", "no exception")], False
     observed, other = read_issues(issues)
@@ -405,20 +459,20 @@ def one_delay_per_row(rows, extras=None):
     return out, (ex if extras else None)
 
 
-def judge(rows, extras=None, use_sidecar=False, style=0):
+def judge(rows, extras=None, use_sidecar=False, style=0, defset="ascii"):
     """check_case + attribution of a mismatch to the narrow requirement it depends on: the letter case of the reserved
     tags (the canonical spelling of the same file is judged correct) or several Delay groups sharing a row (the same
     history with one Delay group per row is judged correct)"""
-    fails, amb = check_case(rows, extras, use_sidecar, style)
+    fails, amb = check_case(rows, extras, use_sidecar, style, defset)
     if not fails:
         return fails, amb
-    if style and not check_case(rows, extras, use_sidecar, 0)[0]:
+    if style and not check_case(rows, extras, use_sidecar, 0, defset)[0]:
         label = L_CASE_DELAY if has_delay(rows) else L_CASE_MARKER
         return [(label, obs, {"expected": exp, "clause": cl, "note": "no mismatch with the canonical spelling"})
                 for cl, obs, exp in fails], amb
     if several_delays_in_a_row(rows):
         rows2, extras2 = one_delay_per_row(rows, extras)
-        if not check_case(rows2, extras2, use_sidecar, style)[0]:
+        if not check_case(rows2, extras2, use_sidecar, style, defset)[0]:
             return [(L_SEVERAL, obs, {"expected": exp, "clause": cl, "note": "no mismatch with one Delay group per row"})
                     for cl, obs, exp in fails], amb
     return fails, amb
@@ -457,6 +511,56 @@ def gen_cases(quick):
         yield (part, rows, 0)
     yield from gen_several(quick)
     yield from gen_spelling(quick)
+    yield from gen_unicode(quick)
+
+
+def gen_unicode(quick):
+    """histories whose definition names are the spellings of ONE non-ASCII family (declared form, upper, casefold, lower):
+    the same enumeration as 'histories'/'layouts' (no Delay), judged by the same fold - the spellings of a family are one
+    name, exactly as 'Aa'/'aa' are.  Each family is declared once without and once with a value ('/#') - two definition
+    sets, part name 'unicode:<set>'.  Then two families side by side."""
+    usable, _ = usable_unicode_bases()
+    fams = []
+    for fi, base in enumerate(UNI_BASES):
+        if base in usable:
+            fams.append((fi, base))
+    for fi, base in fams:
+        for ds in UNI_DEFSETS:
+            part = "unicode:" + ds
+            vs = uni_variants(base, 3 if quick else None)
+            if uni_valued(fi, ds):
+                names = [v + "/1" for v in vs] + ([] if quick else [vs[1] + "/2"])
+            else:
+                names = list(vs)
+            sym = [(k, n) for k in KINDS for n in names]
+            for n in (1, 2):
+                for m in itertools.product(sym, repeat=n):
+                    for layout in itertools.product((0, 1, 2), repeat=n - 1):
+                        yield (part, rows_from(m, layout, None), 0)
+            if quick:
+                # length 3: three different spellings (every order) x every kind triple, one marker per row; for each
+                # family in one of the two definition sets (two families valued, three not)
+                if ds != ("uniA" if fi < 3 else "uniB"):
+                    continue
+                for order in itertools.permutations(names, 3):
+                    for kinds in itertools.product(KINDS, repeat=3):
+                        yield (part, rows_from(list(zip(kinds, order)), (2, 2), None), 0)
+            else:
+                for m in itertools.product(sym, repeat=3):
+                    for layout in itertools.product((0, 1, 2), repeat=2):
+                        yield (part, rows_from(m, layout, None), 0)
+    # two families in one history: scopes of different names are independent
+    for ds in UNI_DEFSETS:
+        for (fa, a), (fb, b) in zip(fams, fams[1:] + fams[:1]):
+            if a == b:
+                continue
+            va = [v + "/1" if uni_valued(fa, ds) else v for v in uni_variants(a, 3)]
+            vb = [v + "/1" if uni_valued(fb, ds) else v for v in uni_variants(b, 3)]
+            for k1, k2 in itertools.product(KINDS, repeat=2):
+                m = [("Onset", va[0]), ("Onset", vb[0]), (k1, vb[1]), (k2, va[1])]
+                yield ("unicode:" + ds, rows_from(m, (2, 2, 2), None), 0)
+                m = [("Onset", va[0]), (k1, vb[1]), (k2, va[2])]
+                yield ("unicode:" + ds, rows_from(m, (2, 2), None), 0)
 
 
 def gen_several(quick):
@@ -541,8 +645,19 @@ def gen_canonical(quick):
                 yield ("ties", rows)
 
 
-def gen_long(rng, count):
+def long_unicode_names(defset):
+    usable, _ = usable_unicode_bases()
+    out = []
+    for fi, base in enumerate(UNI_BASES):
+        if base in usable:
+            vs = uni_variants(base)
+            out += [v + "/1" for v in vs] + [vs[0] + "/2"] if uni_valued(fi, defset) else vs
+    return out
+
+
+def gen_long(rng, count, names=None):
     fillers = ["Square", "Circle, (Triangle, Green)", "", "", ""]
+    names = names or NAMES_FULL + ["AA", "cc/1", "bB"]
     for c in range(count):
         nrows = rng.randint(24, 60)
         rows, extras = [], []
@@ -554,7 +669,7 @@ def gen_long(rng, count):
             markers = []
             for _ in range(rng.choice([0, 1, 1, 1, 2, 3])):
                 kind = rng.choice(KINDS)
-                name = rng.choice(NAMES_FULL + ["AA", "cc/1", "bB"])
+                name = rng.choice(names)
                 d = None
                 if rng.random() < 0.15:
                     ndelay += 1
@@ -570,19 +685,22 @@ def _worker(chunk):
     out = []
     amb = 0
     for part, rows, style in chunk:
-        fails, ambiguous = judge(rows, style=style)
+        defset = defset_of(part)
+        fails, ambiguous = judge(rows, style=style, defset=defset)
         amb += ambiguous
         for clause, obs, exp in fails:
-            out.append((clause, {"part": part, "rows": _rows_json(rows), "style": style,
+            out.append((clause, {"part": part, "rows": _rows_json(rows), "style": style, "defset": defset,
+                                 "definitions": defset_texts(defset),
                                  "file": rows_to_frame(rows, None, style).values.tolist()}, obs, exp))
     return len(chunk), amb, out
 
 
 def _long_worker(args):
-    rows, extras = args
+    rows, extras, defset = args
     schema()
-    fails, _ = judge(rows, extras, use_sidecar=True)
-    return [(clause, {"part": "long", "rows": _rows_json(rows), "extras": extras, "sidecar": True}, obs, exp)
+    fails, _ = judge(rows, extras, use_sidecar=True, defset=defset)
+    return [(clause, {"part": "long" if defset == "ascii" else "long:" + defset, "rows": _rows_json(rows),
+                      "extras": extras, "sidecar": True, "defset": defset}, obs, exp)
             for clause, obs, exp in fails]
 
 
@@ -603,7 +721,10 @@ def run(w: Workload):
               "later rows; long: seeded random files of 24-60 rows; several: one row with 2-3 Delay-shifted markers "
               "(shifts before/on/after the next row, equal and different, in and against text order) + a following row; "
               "spelling: Def/Onset/Offset/Inset/Delay in lower, upper, mixed case for short histories, Delay layouts and "
-              "the 'several' files.  Distinct = distinct file (rows, markers, delays, spelling).")
+              "the 'several' files; unicode: the histories/layouts enumeration (no Delay) over the case spellings (declared, "
+              "upper, casefold, lower) of non-ASCII definition names (sharp s, final sigma, dotted I, e acute), each family "
+              "declared with and without '/#', as far as the schema accepts the names.  "
+              "Distinct = distinct file (rows, markers, delays, spelling).")
     cases = list(gen_cases(w.quick))
     counts = {}
     for c in cases:
@@ -613,7 +734,13 @@ def run(w: Workload):
     chunks = [cases[i:i + 200] for i in range(0, len(cases), 200)]
     records = []
     amb = 0
-    long_cases = list(gen_long(random.Random(w.seed + 1010), 60 if w.quick else 1000))
+    long_cases = [(r, e, "ascii") for r, e in gen_long(random.Random(w.seed + 1010), 60 if w.quick else 1000)]
+    n_long_ascii = len(long_cases)
+    usable, skipped = usable_unicode_bases()
+    if usable:
+        for k, ds in enumerate(UNI_DEFSETS):
+            long_cases += [(r, e, ds) for r, e in gen_long(random.Random(w.seed + 2020 + k), 6 if w.quick else 150,
+                                                           long_unicode_names(ds))]
     with multiprocessing.Pool(min(14, max(1, multiprocessing.cpu_count() - 2))) as pool:
         for n, a, out in pool.imap(_worker, chunks):
             amb += a
@@ -646,8 +773,22 @@ def run(w: Workload):
            bound="lower, upper and mixed-case copies of the histories with <=2 markers and of the Delay layouts with <=2 "
                  "markers; one of the three spellings for %s Delay layout with 3 markers" % ("every second" if w.quick else "every"),
            exhaustive=True)
-    w.part("long", cases=len(long_cases), bound="seeded random files, 24-60 rows, definitions from a sidecar",
+    w.part("long", cases=n_long_ascii, bound="seeded random files, 24-60 rows, definitions from a sidecar",
            exhaustive=False)
+    n_uni = sum(v for k, v in counts.items() if k.startswith("unicode"))
+    w.part("unicode names", cases=n_uni,
+           bound="definition names with non-ASCII letters, families %s (skipped because the schema's name rules refuse a "
+                 "spelling: %s); spellings of a family = declared form, upper(), casefold(), lower() (%s); every family declared "
+                 "without a value in one definition set and with '/#' in the other; per family and set: every marker sequence "
+                 "of length <= 2 over {Onset,Offset,Inset} x spellings x every layout (same row | equal-onset row | later row), "
+                 "length 3: %s; plus two families side by side (18 files per neighbouring pair and set); oracle: the fold of "
+                 "the property with names compared by casefold(), i.e. the verdicts of 'Aa'/'aa'/'AA' in the same pattern"
+                 % (usable, skipped or "none", {b: uni_variants(b, 3 if w.quick else None) for b in usable},
+                    "three different spellings in every order x every kind triple, one marker per row, one set per family"
+                    if w.quick else "every sequence x every layout, plus a second value on one spelling"), exhaustive=True)
+    w.part("long: unicode names", cases=len(long_cases) - n_long_ascii,
+           bound="seeded random files, 24-60 rows, names drawn from all spellings of all usable families (valued families also "
+                 "with a second value), definitions from a sidecar, both definition sets", exhaustive=False)
     w.exhaustive = True
     w.assumptions += [
         "markers of one time point take effect in file order (row order, then order inside the row); a marker whose name "
@@ -667,13 +808,16 @@ def run(w: Workload):
         "more than one Delay-shifted marker per file outside the parts 'several' (one row holds them all) and 'long'",
         "letter case of the unit of a Delay value and Delay values in other units (rt.c07)",
         "onset cells that are not numbers (n/a onsets)",
+        "non-ASCII definition names together with Delay shifts or with respelled reserved tags; names that are equal only "
+        "after Unicode normalisation (NFC/NFKC) - the property speaks of letter case only",
     ]
 
 
 def replay(w: Workload, case: dict):
     inp = case["input"]
     rows = _rows_from_json(inp["rows"])
-    fails, _ = judge(rows, inp.get("extras"), use_sidecar=bool(inp.get("sidecar")), style=int(inp.get("style") or 0))
+    fails, _ = judge(rows, inp.get("extras"), use_sidecar=bool(inp.get("sidecar")), style=int(inp.get("style") or 0),
+                     defset=inp.get("defset") or "ascii")
     for clause, obs, exp in fails:
         w.fail(clause, inp, observed=obs, expected=exp)
 
